@@ -74,6 +74,10 @@ class Run:
             self.errors.append("%s: shape not recognised (%s: %s at %s)" % (getattr(fn, "__name__", "rule"), type(err).__name__, err, where))
             return None
 
+    def undecided(self, rule, construct, why):
+        """The rule cannot decide this construct (a shape it does not read): an analysis error, not a verdict."""
+        self.errors.append("%s %s: %s" % (rule, construct, why))
+
     # ------------------------------------------------------------------ recording
     def ok(self, rule, construct, detail="", loc=None, nontrivial=True):
         self.obligations.append(Obligation(rule, construct, "ok", detail, loc, None, None, nontrivial))
